@@ -14,7 +14,6 @@ def Rel (t : List Int) (w : WVec) : Prop :=
 
 /-- what the WebAssembly program observes when the TypeScript program observes `r` -/
 def expectW : VOp → VRes → VRes
-  | _, .fail _ => .fail TRAP
   | .pop, .val n => .val (i31wrap n)
   | .get _, .val n => .val (i31wrap n)
   | _, r => r
@@ -164,12 +163,14 @@ example : wasmVecRun WVec.empty [.push 5, .push 7, .get 1, .pop, .len] =
 /- Full-strength statement (FALSE):
    theorem vec_agree (ops) : wasmVecRun WVec.empty ops = tsVecRun [] ops                          -/
 
-/-- two witnesses: a stored int outside 31 bits (C04-F5); a failing call (C04-F6: panic with a
-message in TypeScript, engine trap `unreachable` in WebAssembly). -/
+/-- a stored int outside 31 bits (C04-F5, open). Historical note: before fix 361669d a failing
+call was a second witness (`unreachable` trap vs panic with a message, C04-F6); the two runtimes
+now fail with the same message, see `vec_fail_coincide`. -/
 theorem vec_agree_counterexample :
-    wasmVecRun WVec.empty [.push 2000000000, .get 0] ≠ tsVecRun [] [.push 2000000000, .get 0] ∧
-      wasmVecRun WVec.empty [.pop] ≠ tsVecRun [] [.pop] := by
-  constructor <;> decide
+    wasmVecRun WVec.empty [.push 2000000000, .get 0] ≠ tsVecRun [] [.push 2000000000, .get 0] := by
+  decide
+
+example : wasmVecRun WVec.empty [.pop] = tsVecRun [] [.pop] := by decide
 
 /-- all stored ints fit in 31 bits -/
 def SmallValues (ops : List VOp) : Prop :=
@@ -178,13 +179,10 @@ def SmallValues (ops : List VOp) : Prop :=
     | .set _ v => InI31 v
     | _ => True
 
-/-- no call fails on the TypeScript side -/
-def NoFail (rs : List VRes) : Prop := ∀ r ∈ rs, ∀ m, r ≠ .fail m
-
 theorem tsVecStep_small (t : List Int) (ht : ∀ x ∈ t, InI31 x) (op : VOp)
     (hop : match op with | .push v => InI31 v | .set _ v => InI31 v | _ => True) :
     (∀ x ∈ (tsVecStep t op).1, InI31 x) ∧
-      ((∀ m, (tsVecStep t op).2 ≠ .fail m) → expectW op (tsVecStep t op).2 = (tsVecStep t op).2) := by
+      expectW op (tsVecStep t op).2 = (tsVecStep t op).2 := by
   have hgetD : ∀ i, i < t.length → InI31 (t.getD i 0) := by
     intro i hi
     rw [List.getD_eq_getElem?_getD, List.getElem?_eq_getElem hi]
@@ -194,65 +192,60 @@ theorem tsVecStep_small (t : List Int) (ht : ∀ x ∈ t, InI31 x) (op : VOp)
   | reserve n => simp [tsVecStep, expectW]; exact ht
   | push v =>
     simp only [tsVecStep, expectW]
-    refine ⟨?_, fun _ => trivial⟩
+    refine ⟨?_, trivial⟩
     intro x hx
     rcases List.mem_append.mp hx with h | h
     · exact ht x h
     · simp at h; subst h; exact hop
   | pop =>
     by_cases h0 : t.length = 0
-    · simp [tsVecStep, h0]; exact ht
+    · simp [tsVecStep, h0, expectW]; exact ht
     · simp only [tsVecStep, h0, if_false, expectW]
-      refine ⟨fun x hx => ht x (List.mem_of_mem_take hx), fun _ => ?_⟩
+      refine ⟨fun x hx => ht x (List.mem_of_mem_take hx), ?_⟩
       rw [i31wrap_id (hgetD _ (by omega))]
   | get i =>
     by_cases hb : i < 0 ∨ i ≥ (t.length : Int)
-    · simp [tsVecStep, hb]; exact ht
+    · simp [tsVecStep, hb, expectW]; exact ht
     · simp only [tsVecStep, hb, if_false, expectW]
-      refine ⟨ht, fun _ => ?_⟩
+      refine ⟨ht, ?_⟩
       rw [i31wrap_id (hgetD _ (by omega))]
   | set i v =>
     by_cases hb : i < 0 ∨ i ≥ (t.length : Int)
-    · simp [tsVecStep, hb]; exact ht
+    · simp [tsVecStep, hb, expectW]; exact ht
     · simp only [tsVecStep, hb, if_false, expectW]
-      refine ⟨?_, fun _ => trivial⟩
+      refine ⟨?_, trivial⟩
       intro x hx
       rcases List.mem_or_eq_of_mem_set hx with h | h
       · exact ht x h
       · subst h; exact hop
 
 theorem vec_agree_aux (ops : List VOp) (t : List Int) (ht : ∀ x ∈ t, InI31 x)
-    (hs : SmallValues ops) (hn : NoFail (tsVecRun t ops)) :
+    (hs : SmallValues ops) :
     List.zipWith expectW ops (tsVecRun t ops) = tsVecRun t ops := by
   induction ops generalizing t with
   | nil => simp [tsVecRun]
   | cons op ops ih =>
     obtain ⟨hsm, hex⟩ := tsVecStep_small t ht op (hs op List.mem_cons_self)
     have hs' : SmallValues ops := fun o ho => hs o (List.mem_cons_of_mem _ ho)
-    simp only [tsVecRun] at hn ⊢
+    simp only [tsVecRun]
     rcases hts : tsVecStep t op with ⟨t', rt⟩
-    rw [hts] at hn hsm hex
-    simp only at hn hsm hex
+    rw [hts] at hsm hex
+    simp only at hsm hex
     cases rt with
-    | fail m => exact absurd rfl (hn (.fail m) (by simp) m)
-    | unit =>
-      simp only [List.zipWith_cons_cons]
-      rw [hex (by intro m; simp), ih t' hsm hs' (fun r hr => hn r (List.mem_cons_of_mem _ hr))]
-    | val n =>
-      simp only [List.zipWith_cons_cons]
-      rw [hex (by intro m; simp), ih t' hsm hs' (fun r hr => hn r (List.mem_cons_of_mem _ hr))]
+    | fail m => simp only [List.zipWith_cons_cons, List.zipWith_nil_right, hex]
+    | unit => simp only [List.zipWith_cons_cons]; rw [hex, ih t' hsm hs']
+    | val n => simp only [List.zipWith_cons_cons]; rw [hex, ih t' hsm hs']
 
-/-- **Partial form of `vec_agree`**: if every stored int fits in 31 bits and no call fails, a
-program observes exactly the same results from both `Vec` runtimes, for every call sequence. -/
-theorem vec_agree_partial (ops : List VOp) (hs : SmallValues ops) (hn : NoFail (tsVecRun [] ops)) :
+/-- **`vec_agree` for 31-bit elements** (was additionally restricted to runs without a failing call
+before fix 361669d): if every stored int fits in 31 bits, a program observes exactly the same
+results — including which call fails and with which message — from both `Vec` runtimes, for every
+call sequence. -/
+theorem vec_agree_partial (ops : List VOp) (hs : SmallValues ops) :
     wasmVecRun WVec.empty ops = tsVecRun [] ops := by
-  rw [vec_refines_empty, vec_agree_aux ops [] (by simp) hs hn]
+  rw [vec_refines_empty, vec_agree_aux ops [] (by simp) hs]
 
-example : SmallValues [.push 5, .set 0 (-1073741824), .get 0] ∧
-    NoFail (tsVecRun [] [.push 5, .set 0 (-1073741824), .get 0]) := by
-  constructor
-  · intro op hop; simp at hop; rcases hop with rfl | rfl | rfl <;> simp <;> decide
-  · intro r hr m; simp [tsVecRun, tsVecStep] at hr; rcases hr with rfl | rfl | rfl <;> simp
+example : SmallValues [.push 5, .set 0 (-1073741824), .get 7] := by
+  intro op hop; simp at hop; rcases hop with rfl | rfl | rfl <;> simp <;> decide
 
 theorem tsVecRun_length_le (ops : List VOp) (t : List Int) :
     (tsVecRun t ops).length ≤ ops.length := by
@@ -266,19 +259,18 @@ theorem tsVecRun_length_le (ops : List VOp) (t : List Int) :
     | unit => simp; exact ih t'
     | val n => simp; exact ih t'
 
-theorem expectW_fail_iff (op : VOp) (r : VRes) : expectW op r = .fail TRAP ↔ ∃ m, r = .fail m := by
+theorem expectW_fail_iff (op : VOp) (r : VRes) (m : String) : expectW op r = .fail m ↔ r = .fail m := by
   cases op <;> cases r <;> simp [expectW]
 
-/-- **Failures coincide**: both runs produce the same number of results, and the WebAssembly run
-fails (traps) at call `k` iff the TypeScript run fails (panics) at call `k`; only the *kind* of
-termination differs (finding C04-F6). -/
+/-- **Failures coincide** (all element values): both runs produce the same number of results, and
+the WebAssembly run fails at call `k` with message `m` iff the TypeScript run does. -/
 theorem vec_fail_coincide (ops : List VOp) :
     (wasmVecRun WVec.empty ops).length = (tsVecRun [] ops).length ∧
-      ∀ k : Nat, (∃ m, (tsVecRun [] ops)[k]? = some (VRes.fail m)) ↔
-        (wasmVecRun WVec.empty ops)[k]? = some (VRes.fail TRAP) := by
+      ∀ (k : Nat) (m : String), (tsVecRun [] ops)[k]? = some (VRes.fail m) ↔
+        (wasmVecRun WVec.empty ops)[k]? = some (VRes.fail m) := by
   rw [vec_refines_empty]
   have hle := tsVecRun_length_le ops []
-  refine ⟨by simp [List.length_zipWith]; omega, fun k => ?_⟩
+  refine ⟨by simp [List.length_zipWith]; omega, fun k m => ?_⟩
   rw [List.getElem?_zipWith]
   by_cases hk : k < (tsVecRun [] ops).length
   · have hk' : k < ops.length := by omega
@@ -526,10 +518,129 @@ theorem fromInt_agree (n : Int) (h : InRange n) : wasmFromInt n = tsFromInt n :=
 
 example : wasmFromInt (-120) = [45, 49, 50, 48] := by decide
 
-end SamVerif.Backends
+/-! ## 6. `Str.toInt` inverts `Str.fromInt` on both back ends -/
 
-/- Pending (stated, not proved yet — listed under `pending` in the evidence):
-   theorem toInt_fromInt (n : Int) (h : InRange n) :
-       SamVerif.Backends.wasmToInt (SamVerif.Backends.wasmFromInt n) = some n ∧
-       SamVerif.Backends.tsToInt (SamVerif.Backends.tsFromInt n) = some n
-   (`Str.toInt` is tied by the `s2i` correspondence lines only.) -/
+theorem natDigits_digits (f p : Nat) : ∀ c ∈ natDigits f p, 48 ≤ c ∧ c ≤ 57 := by
+  induction f generalizing p with
+  | zero => intro c hc; simp [natDigits] at hc
+  | succ f ih =>
+    intro c hc
+    simp only [natDigits] at hc
+    split at hc
+    · simp at hc; omega
+    · rcases List.mem_append.mp hc with h | h
+      · exact ih _ c h
+      · simp at h; omega
+
+theorem natDigits_ne_nil (f p : Nat) : natDigits (f + 1) p ≠ [] := by
+  simp only [natDigits]; split <;> simp
+
+/-- exact (unwrapped) value accumulated by the digit loop -/
+def accVal : List Nat → Int → Int
+  | [], acc => acc
+  | c :: r, acc => accVal r (acc * 10 + (c - 48))
+
+theorem accVal_append (l : List Nat) (c : Nat) (acc : Int) :
+    accVal (l ++ [c]) acc = accVal l acc * 10 + (c - 48) := by
+  induction l generalizing acc with
+  | nil => simp [accVal]
+  | cons d r ih => simp [accVal, ih]
+
+theorem accVal_natDigits (f p : Nat) (h : p < 10 ^ f) : accVal (natDigits f p) 0 = p := by
+  induction f generalizing p with
+  | zero => simp at h; subst h; simp [natDigits, accVal]
+  | succ f ih =>
+    simp only [natDigits]
+    split
+    · simp [accVal]; omega
+    · rename_i h10
+      rw [accVal_append, ih (p / 10) (by rw [Nat.pow_succ] at h; omega)]
+      omega
+
+/-- the wrapping loop of `$__Str$toInt` computes the exact value modulo 2^32 -/
+theorem wasmToIntLoop_spec (ds : List Nat) (hd : ∀ c ∈ ds, 48 ≤ c ∧ c ≤ 57) (acc acc' : Int)
+    (ha : acc = wrap32 acc') : wasmToIntLoop ds acc = some (wrap32 (accVal ds acc')) := by
+  induction ds generalizing acc acc' with
+  | nil => simp [wasmToIntLoop, accVal, ha]
+  | cons c r ih =>
+    have hc := hd c List.mem_cons_self
+    simp only [wasmToIntLoop, accVal]
+    rw [if_neg (by omega)]
+    apply ih (fun d hd' => hd d (List.mem_cons_of_mem _ hd'))
+    subst ha
+    unfold wrap32; omega
+
+theorem takeWhile_all (p : Nat → Bool) (l : List Nat) (h : ∀ c ∈ l, p c = true) :
+    l.takeWhile p = l := by
+  induction l with
+  | nil => rfl
+  | cons c r ih =>
+    simp [List.takeWhile_cons, h c List.mem_cons_self, ih (fun d hd => h d (List.mem_cons_of_mem _ hd))]
+
+theorem decVal_eq (ds : List Nat) (hd : ∀ c ∈ ds, 48 ≤ c ∧ c ≤ 57) (acc : Nat) :
+    (decVal ds acc : Int) = accVal ds acc := by
+  induction ds generalizing acc with
+  | nil => simp [decVal, accVal]
+  | cons c r ih =>
+    have hc := hd c List.mem_cons_self
+    simp only [decVal, accVal]
+    rw [ih (fun d hd' => hd d (List.mem_cons_of_mem _ hd'))]
+    congr 1
+    omega
+
+/-- **`toInt (fromInt n) = n`** in the WebAssembly runtime (including `MIN`, whose digits overflow
+the accumulator and wrap back) … -/
+theorem wasm_toInt_fromInt (n : Int) (h : InRange n) : wasmToInt (wasmFromInt n) = some n := by
+  rw [fromInt_agree n h]
+  unfold InRange at h
+  unfold tsFromInt
+  have hdig := natDigits_digits 22 n.natAbs
+  have hval := accVal_natDigits 22 n.natAbs (by omega)
+  by_cases hn : n < 0
+  · simp only [hn, if_true, List.singleton_append, wasmToInt]
+    rw [wasmToIntLoop_spec _ hdig 0 0 (by decide), hval]
+    simp only [Option.some.injEq]
+    unfold wrap32; omega
+  · simp only [hn, if_false, List.nil_append]
+    rcases hnd : natDigits 22 n.natAbs with _ | ⟨c, r⟩
+    · exact absurd hnd (natDigits_ne_nil 21 _)
+    · have hc : 48 ≤ c ∧ c ≤ 57 := hdig c (by rw [hnd]; exact List.mem_cons_self)
+      have hne : ¬ c = 45 := by omega
+      simp only [wasmToInt, hne, if_false]
+      rw [← hnd, wasmToIntLoop_spec _ hdig 0 0 (by decide), hval]
+      simp only [Option.some.injEq]
+      unfold wrap32; omega
+
+/-- … and with `parseInt(String(n), 10)` in the TypeScript runtime. -/
+theorem ts_toInt_fromInt (n : Int) (_h : InRange n) : tsToInt (tsFromInt n) = some n := by
+  have hdig := natDigits_digits 22 n.natAbs
+  have hall : (natDigits 22 n.natAbs).takeWhile isDigit = natDigits 22 n.natAbs := by
+    apply takeWhile_all
+    intro c hc
+    have := hdig c hc
+    simp [isDigit]; omega
+  have hval : (decVal (natDigits 22 n.natAbs) 0 : Int) = n.natAbs := by
+    rw [decVal_eq _ hdig 0]; exact accVal_natDigits 22 n.natAbs (by unfold InRange at _h; omega)
+  have hnn : natDigits 22 n.natAbs ≠ [] := natDigits_ne_nil 21 _
+  unfold tsFromInt tsToInt
+  by_cases hn : n < 0
+  · simp only [hn, if_true, List.singleton_append]
+    simp only [List.dropWhile_cons]
+    simp [hall, hnn, hval]; omega
+  · simp only [hn, if_false, List.nil_append]
+    rcases hnd : natDigits 22 n.natAbs with _ | ⟨c, r⟩
+    · exact absurd hnd hnn
+    · have hc : 48 ≤ c ∧ c ≤ 57 := hdig c (by rw [hnd]; exact List.mem_cons_self)
+      have e1 : ¬ (c = 32 ∨ (9 ≤ c ∧ c ≤ 13)) := by omega
+      rw [hnd] at hall hval
+      simp only [List.dropWhile_cons]
+      simp [e1, show c ≠ 45 by omega, show c ≠ 43 by omega, hall, hval]; omega
+
+/-- **`toInt_fromInt`**: both back ends read back every `int` from its own decimal string. -/
+theorem toInt_fromInt (n : Int) (h : InRange n) :
+    wasmToInt (wasmFromInt n) = some n ∧ tsToInt (tsFromInt n) = some n :=
+  ⟨wasm_toInt_fromInt n h, ts_toInt_fromInt n h⟩
+
+example : wasmToInt (wasmFromInt (-120)) = some (-120) := by decide
+
+end SamVerif.Backends
